@@ -38,6 +38,9 @@ type vgen struct {
 	lines int
 	stuck int
 	seq   uint64
+	// generated histories: how many more Run exits may be followed by a supervisor restart (each one waits out the
+	// supervisor's own back-off, 0.25-0.75 s), and one in how many exits is
+	restarts, restartOneIn int
 }
 
 func (g *vgen) hash(prefix byte) ethCommon.Hash {
@@ -205,7 +208,17 @@ func (g *vgen) wsCase(t *testing.T, i int) {
 		}
 		return a
 	}
-	for op := 0; op < nops && !c.dead(); op++ {
+	for op := 0; op < nops; op++ {
+		if c.dead() {
+			// Run has returned with an RPC-induced error: now and then the supervisor gets to restart it and the history goes on
+			restartable := c.exited == "blocktime" || c.exited == "headsub" || c.exited == "logsub"
+			if c.stuck != "" || !restartable || g.restarts <= 0 || r.Intn(g.restartOneIn) != 0 {
+				break
+			}
+			g.restarts--
+			c.opRestart(false, pick)
+			continue
+		}
 		pend, en := c.pendingSnapshot()
 		W := c.watched()
 		var choice int
@@ -614,6 +627,137 @@ func (g *vgen) raceCases(t *testing.T) {
 	}
 }
 
+// fixed scenarios: Run returns with an error while messages are pending, and the supervisor restarts it on the same Watcher.
+// History: message Z (block 95, cl 0) and message A (block 101, cl 2) are logged at head 90; head 100 (Z is forwarded where its
+// depth is reached, A is not deep enough); then the fault:
+//   blocktime - the block-time lookup for the log of another message B fails (eth_getBlockByHash error / null block),
+//   logsub    - an undecodable log ends the log subscription,
+//   headsub   - the head moves past A's depth but eth_getBlockByNumber fails three times in a row (head subscription error),
+//   retry     - as blocktime, after A's receipt lookup had failed with a transient error at a head past its depth;
+// the supervisor restarts Run (`twice`: the first restarted incarnation fails on its guardian-set call and is restarted again);
+// the head moves on while the new poller is still off; the log of a new message C switches the poller on; later heads.
+// All transactions stay in their blocks and every receipt lookup after the restart succeeds: A (and C) must be forwarded exactly once
+// after their depth is reached, Z never again.
+func (g *vgen) restartCases(t *testing.T, quick bool) {
+	type sc struct {
+		cause string
+		wait  bool
+		chain vaa.ChainID
+		twice bool
+	}
+	var scs []sc
+	for i, cause := range []string{"blocktime", "headsub", "logsub", "retry", "btnull", "headsub-nonum"} {
+		for j, wait := range []bool{true, false} {
+			chain := []vaa.ChainID{vaa.ChainIDBSC, vaa.ChainIDEthereum}[(i+j)%2]
+			if quick && i >= 3 {
+				continue
+			}
+			scs = append(scs, sc{cause, wait, chain, false})
+			if !quick {
+				scs = append(scs, sc{cause, wait, []vaa.ChainID{vaa.ChainIDBSC, vaa.ChainIDEthereum}[(i+j+1)%2], false})
+			}
+		}
+	}
+	scs = append(scs, sc{"blocktime", true, vaa.ChainIDBSC, true})
+	if !quick {
+		scs = append(scs, sc{"headsub", false, vaa.ChainIDEthereum, true})
+	}
+	for i, s := range scs {
+		if g.stuck >= 3 {
+			return
+		}
+		gap := uint64(0)
+		if s.chain == vaa.ChainIDEthereum {
+			gap = 13
+		}
+		c := &vCase{t: t, g: g, id: fmt.Sprintf("rs%d", i), chain: s.chain, wait: s.wait, gapF: gap, gapS: gap / 2}
+		g.r.Read(c.contract[:])
+		c.lat = 90 + gap
+		if !c.startLine(false) {
+			c.stop()
+			continue
+		}
+		conf := func(cl uint8) uint64 {
+			if s.wait {
+				return uint64(cl)
+			}
+			return 0
+		}
+		cur := "ok"
+		var txA ethCommon.Hash
+		pick := func(x vTxRef) vRcAns {
+			bn := x.bn
+			if x.tx == txA && cur == "err" {
+				return vRcAns{kind: "err"}
+			}
+			return vRcAns{kind: "r", status: 1, bh: x.bh, bn: &bn}
+		}
+		mk := func(bn uint64, cl uint8) vLogSpec {
+			m := g.msgSpec()
+			m.cl = cl
+			return vLogSpec{tx: g.hash(0xaa), bh: g.hash(0xbb), bn: bn, m: m, bt: vBtAns{kind: "ok", t: 1700000000 + bn}}
+		}
+		step := func(f func()) {
+			if !c.dead() {
+				f()
+			}
+		}
+		z, a := mk(95, 0), mk(101, 2)
+		txA = a.tx
+		c.opLog(z, pick)
+		step(func() { c.opLog(a, pick) })
+		step(func() { c.opHead(100+gap, 0, false, pick) })
+		ready := 101 + conf(2)
+		W := uint64(100)
+		switch s.cause {
+		case "blocktime", "btnull", "logsub":
+			b := mk(100, 1)
+			if s.cause == "logsub" {
+				b.badData = true
+			} else if s.cause == "btnull" {
+				b.bt = vBtAns{kind: "null"}
+			} else {
+				b.bt = vBtAns{kind: "err"}
+			}
+			step(func() { c.opLog(b, pick) })
+		case "retry":
+			W = ready + 1
+			cur = "err"
+			step(func() { c.opHead(W+gap, 0, false, pick) })
+			b := mk(W, 1)
+			b.bt = vBtAns{kind: "err"}
+			step(func() { c.opLog(b, pick) })
+			cur = "ok"
+		default: // headsub
+			W = ready + 3
+			step(func() { c.opHead(W+gap, 3, s.cause == "headsub-nonum", pick) })
+		}
+		if c.exited != "" && c.stuck == "" {
+			if s.twice {
+				c.opRestart(true, pick)
+			}
+			if c.stuck == "" {
+				c.opRestart(false, pick)
+			}
+			// the poller of the new incarnation is off until the next log arrives
+			W += 2
+			step(func() { c.opHead(W+gap, 0, false, pick) })
+			cm := mk(W, 1)
+			step(func() { c.opLog(cm, pick) })
+			for _, hd := range []uint64{ready + 4, W + conf(1), W + conf(1) + 1, W + conf(1) + 70} {
+				if hd > W {
+					W = hd
+					step(func() { c.opHead(W+gap, 0, false, pick) })
+				}
+			}
+		}
+		if c.stuck != "" {
+			g.stuck++
+		}
+		c.stop()
+	}
+}
+
 // fixed scenarios: re-observation requests on a chain read at finalized height (and, as control, the same history read at latest
 // height): a successful core-contract transaction in a block below / at / above the finalized head, at / above the latest head;
 // then finality catches up and the request is repeated.
@@ -970,6 +1114,10 @@ func TestVerifEvm(t *testing.T) {
 	if v := os.Getenv("VERIF_EVM_WS"); v != "" {
 		nWs, _ = strconv.Atoi(v)
 	}
+	g.restarts, g.restartOneIn = 4, 3
+	if tier == "thorough" {
+		g.restarts, g.restartOneIn = 150, 4
+	}
 	g.directCases(t, nDirect)
 	g.w.Flush()
 	if os.Getenv("VERIF_EVM_NOSC") == "" {
@@ -977,6 +1125,7 @@ func TestVerifEvm(t *testing.T) {
 		g.zeroHeadCases(t)
 		g.raceCases(t)
 		g.finReobsCases(t)
+		g.restartCases(t, tier != "thorough")
 	}
 	for i := 0; i < nWs && g.stuck < 3; i++ {
 		g.wsCase(t, i)
